@@ -3,5 +3,5 @@ from . import pjaxr
 
 EXPLANATION = ("PRNG-key linearity over the Seed interpreter (split once per consuming branch, sub-key consumed once, fold_in(index) per scan iteration, "
                "carried key unchanged), lane randomness by sample-shape extension under modular_vmap, sample_shape threading to the keyful samplers.")
-RULES = [pjaxr.key_linearity_events, pjaxr.nested_jaxpr_seeded_events, pjaxr.vmap_lane_randomness, pjaxr.sample_shape_threading, pjaxr.seed_sample_branch_events]
+RULES = [pjaxr.key_linearity_events, pjaxr.nested_jaxpr_seeded_events, pjaxr.vmap_lane_randomness, pjaxr.sample_shape_threading, pjaxr.seed_sample_branch_events, pjaxr.dispatch_sets_events]
 FLOOR = 10
